@@ -9,6 +9,7 @@ rejected by the target's constraint at every position of the source).
 import random
 
 NAMES = list("abcdefgh")
+NAME_W = [6, 6, 5, 4, 3, 2, 1, 1]
 NREG, NPLAIN = 6, 4
 CONS = ["-", "-", "c:1:-8:8:1", "c:0:-8:8:0", "c:1:0:+inf:0", "c:0:0:+inf:0", "c:0:-inf:4:1", "c:1:-4:12:0", "c:0:-2:2:1"]
 
@@ -28,6 +29,11 @@ def inside(rng, con):
         if accepts(con, q):
             return q
     return 1
+
+
+def pick(rng, pred):
+    cands = [q for q in range(-16, 21) if pred(q)]
+    return rng.choice(cands) if cands else None
 
 
 def outside(rng, con):
@@ -53,7 +59,7 @@ class Shadow:
         return None
 
 
-def gen_case(rng, tag, length, raise_p=0.35, soup=False):
+def gen_case(rng, tag, length, raise_p=0.5, soup=False):
     sh = Shadow()
     ops = []
 
@@ -67,14 +73,15 @@ def gen_case(rng, tag, length, raise_p=0.35, soup=False):
 
     def op_add(k=None, want_raise=None):
         k = reg() if k is None else k
-        want_raise = (rng.random() < raise_p * 0.6) if want_raise is None else want_raise
+        want_raise = (rng.random() < raise_p * 1.2) if want_raise is None else want_raise
         have = sh.names(k)
         con = rng.choice(CONS)
         if want_raise and have:
             n = rng.choice(have)
         else:
-            free = [sh.pre[k] + x for x in NAMES if sh.pre[k] + x not in have]
-            n = rng.choice(free) if free else pname(k)
+            free = [x for x in NAMES if sh.pre[k] + x not in have]
+            # low letters are favoured so that lists overlap
+            n = sh.pre[k] + rng.choices(free, [NAME_W[NAMES.index(x)] for x in free])[0] if free else pname(k)
         q = inside(rng, con)
         if rng.random() < 0.04:
             o = outside(rng, con)
@@ -130,17 +137,47 @@ def gen_case(rng, tag, length, raise_p=0.35, soup=False):
         if kind.startswith("ap."):
             k = apreg()
             if not sh.l[k]:
-                fill(k, rng.randint(1, 5))
-        j = rng.choice([x for x in range(NREG) if x != k])
-        n_match = len(sh.l[k])
-        rej = rng.randrange(max(1, n_match)) if rng.random() < raise_p * 1.3 else None
-        subset = kind not in ("setallv", "ap.setallv", "setallp") or rng.random() < 0.25
-        if kind in ("setps",) and rng.random() < 0.7:
-            subset = True
-        make_source(k, j, rej, subset)
-        if kind == "setps" and rng.random() < 0.7:
-            # setParameters raises on names missing in the target: mostly avoid them
-            pass
+                fill(k, rng.randint(1, 4))
+        others = [x for x in range(NREG) if x != k]
+        r = rng.random()
+        if r < 0.88:
+            # an existing register as source (overlap of names by chance; self-source sometimes)
+            cands = [x for x in others if sh.l[x]] or others
+            j = k if rng.random() < 0.05 else rng.choice(cands)
+            # tune the source: either one matching value is made unacceptable for its target
+            # (at a random position), or all of them are made acceptable
+            matching = [e for e in sh.l[j] if sh.find(k, e[0]) is not None]
+            if j != k and matching:
+                if rng.random() < raise_p * 1.3:
+                    rng.shuffle(matching)
+                    e, q = matching[0], None
+                    for e in matching:
+                        tc = sh.find(k, e[0])[2]
+                        q = pick(rng, lambda x: accepts(e[2], x) and not accepts(tc, x))
+                        if q is not None:
+                            break
+                    if q is not None:
+                        ops.append("setv %d %s %d" % (j, e[0], q))
+                        if accepts(e[2], q):
+                            e[1] = q
+                else:
+                    for e in matching:
+                        t = sh.find(k, e[0])
+                        if not accepts(t[2], e[1]) or rng.random() < 0.25:
+                            q = t[1] if rng.random() < 0.3 else pick(rng, lambda x: accepts(e[2], x) and accepts(t[2], x))
+                            if q is None:
+                                q = t[1]
+                            ops.append("setv %d %s %d" % (j, e[0], q))
+                            if accepts(e[2], q):
+                                e[1] = q
+        else:
+            j = rng.choice(others)
+            n_match = len(sh.l[k])
+            rej = rng.randrange(max(1, n_match)) if rng.random() < raise_p else None
+            subset = kind not in ("setallv", "ap.setallv", "setallp") or rng.random() < 0.25
+            if len(sh.l[k]) > 4:
+                subset = True if "all" not in kind else subset
+            make_source(k, j, rej, subset)
         ops.append("%s %d %d" % (kind, k, j))
         # shadow (approximate: applies when nothing is rejected)
         ok = all(accepts(sh.find(k, e[0])[2], e[1]) for e in sh.l[j] if sh.find(k, e[0]))
@@ -158,7 +195,7 @@ def gen_case(rng, tag, length, raise_p=0.35, soup=False):
         if sh.l[k] and rng.random() > raise_p * 0.4:
             e = rng.choice(sh.l[k])
             n = e[0]
-            if rng.random() < raise_p * 0.8:
+            if rng.random() < raise_p * 1.1:
                 q = outside(rng, e[2])
                 if q is None:
                     q = inside(rng, e[2])
@@ -274,6 +311,16 @@ def gen_case(rng, tag, length, raise_p=0.35, soup=False):
         r = rng.random()
         if rng.random() < 0.06:
             j = k
+        if r < 0.55 and j != k and rng.random() < raise_p * 0.9:
+            coll = [e for e in sh.l[j] if sh.find(k, e[0]) is not None]
+            if coll:
+                e = rng.choice(coll)
+                tc = sh.find(k, e[0])[2]
+                q = pick(rng, lambda x: accepts(e[2], x) and not accepts(tc, x))
+                if q is not None:
+                    ops.append("setv %d %s %d" % (j, e[0], q))
+                    if accepts(e[2], q):
+                        e[1] = q
         if r < 0.3:
             ops.append("include %d %d" % (k, j))
             for e in list(sh.l[j]):
@@ -382,10 +429,10 @@ def gen_case(rng, tag, length, raise_p=0.35, soup=False):
         sh.l[k] = []
 
     # start with a few populated registers
-    for k in rng.sample(range(NREG), rng.randint(1, 3)):
-        fill(k, rng.randint(1, 6))
-    table = [(op_add, 18), (bulk, 22), (op_setv, 8), (op_del, 10), (op_sub, 10), (op_merge, 12), (op_copy, 7),
-             (op_setp, 3), (op_query, 7), (op_ns, 1.5), (op_reset, 1.5)]
+    for k in rng.sample(range(NREG), 2):
+        fill(k, rng.randint(2, 5))
+    table = [(op_add, 12), (bulk, 30), (op_setv, 9), (op_del, 12), (op_sub, 10), (op_merge, 12), (op_copy, 6),
+             (op_setp, 4), (op_query, 7), (op_ns, 1.5), (op_reset, 1.0)]
     fns = [f for f, _ in table]
     wts = [w for _, w in table]
     while len(ops) < length:
@@ -432,9 +479,9 @@ def directed(rng):
 def generate(seed, tier):
     rng = random.Random(seed)
     cases = directed(rng)
-    nrand = 12000 if tier == "thorough" else 1500
+    nrand = 9000 if tier == "thorough" else 900
     for i in range(nrand):
-        cases.append(gen_case(rng, "rnd%d" % i, rng.randint(6, 28)))
+        cases.append(gen_case(rng, "rnd%d" % i, rng.randint(12, 60)))
     return cases
 
 
